@@ -670,6 +670,9 @@ class GT(torch.Tensor):
         return repr(self)
 
     def __len__(self):
+        return self.sym_len()       # an int for a concrete leading dimension; python's len() rejects a symbolic one
+
+    def sym_len(self):              # what the sandbox's len() uses
         v = val_of(self)
         if not v.shape:
             raise TypeError("len() of a 0-d tensor")
@@ -1431,6 +1434,30 @@ def _stack(ts, dim=0, *, out=None):
     return _cat([_unsqueeze(x if isinstance(x, GT) else new(val_of(x)), dim % n) for x in ts], dim % n, out=out)
 
 
+@reg("split", "split_with_sizes")
+def _split_h(t, size, dim=0):
+    v = val_of(t)
+    dim = dim % v.ndim
+    d = rep(v.shape[dim])
+    if isinstance(size, (list, tuple)):
+        raise Unmodelled("split into explicit sections")
+    if isinstance(d, int) and isinstance(size, int):
+        raise Unmodelled("split of a concrete dimension (use the per-shape front end)")
+    zs = size.e if isinstance(size, astvc.SymInt) else size
+    zd = d.z if isinstance(d, Dim) else d
+    vc = astvc.VC.cur()
+    if vc.decide(zs >= zd):
+        return (_view(t, ("id",)),)          # one chunk holding everything
+    raise Unmodelled("split of a dimension of symbolic size into several chunks")
+
+
+@reg("chunk")
+def _chunk_h(t, chunks, dim=0):
+    if chunks == 1:
+        return (_view(t, ("id",)),)
+    raise Unmodelled("chunk of a dimension of symbolic size")
+
+
 @reg("clone", "contiguous_copy")
 def _clone(t, **kw):
     return new(val_of(t))
@@ -1546,11 +1573,51 @@ class GScalar:
     def __neg__(self): return GScalar(-self.e)
     def __pow__(self, n): return GScalar(self.e ** n)
 
+    def sqrt(self):          # numpy's object fallback: np.sqrt(x) calls x.sqrt()
+        return GScalar(fn("sqrt", self.e))
+
     def __float__(self):
         raise Unmodelled("float() of a symbolic scalar")
 
     def __bool__(self):
         raise Unmodelled("truth value of a symbolic scalar")
+
+
+def _moments(a, dim, unbiased):
+    v = val_of(a)
+    axes = _axes(v, dim)
+    n = ONE
+    for ax in axes:
+        n = n * to_E(size_obj(v.shape[ax]))
+    s1, s2 = v.body, v.body * v.body
+    for ax in axes:
+        s1, s2 = esum(s1, v.ix[ax]), esum(s2, v.ix[ax])
+    shape = tuple(d for i, d in enumerate(v.shape) if i not in axes)
+    ix = tuple(k for i, k in enumerate(v.ix) if i not in axes)
+    mean = s1 * fn("inv", n)
+    var = (s2 - s1 * s1 * fn("inv", n)) * fn("inv", n - 1 if unbiased else n)
+    return Val(shape, ix, var), Val(shape, ix, mean)
+
+
+@reg("var_mean")
+def _var_mean(a, dim=None, unbiased=True, keepdim=False, *, correction=None):
+    if correction is not None:
+        unbiased = bool(correction)
+    if keepdim:
+        raise Unmodelled("var_mean with keepdim")
+    va, me = _moments(a, dim, unbiased)
+    return new(va), new(me)
+
+
+@reg("var")
+def _var(a, dim=None, unbiased=True, keepdim=False, *, correction=None):
+    return _var_mean(a, dim, unbiased, keepdim, correction=correction)[0]
+
+
+@reg("std")
+def _std(a, dim=None, unbiased=True, keepdim=False, *, correction=None):
+    va = val_of(_var(a, dim, unbiased, keepdim, correction=correction))
+    return new(Val(va.shape, va.ix, fn("sqrt", va.body)))
 
 
 @reg("item")
@@ -1678,17 +1745,18 @@ def _align(got, want):
     return ix, got.at(*ix), want.at(*ix)
 
 
-def _sizes_from_model(vc, tries):
+def _sizes_from_model(vc, tries, pc=None):
     """Concrete sizes for every dimension, consistent with the path condition: small random ones where the path
     allows, otherwise the smallest the path admits (a branch taken only above some size is reached that way)."""
     names = sorted(DIMS)
     out = []
     rnd = random.Random(7)
+    pc = list(vc.pc) if pc is None else list(pc)
 
     def solver(hi):
         s = z3.Solver()
         s.set("timeout", 5000)
-        for c in vc.pc:
+        for c in pc:
             s.add(c)
         for n in names:
             s.add(DIMS[n].z >= 1, DIMS[n].z <= hi)
@@ -1710,7 +1778,7 @@ def _sizes_from_model(vc, tries):
         for hi in (3, 5, 9, 17, 33, 65, 129, 1025, 1 << 20):
             o = z3.Optimize()
             o.set("timeout", 10000)
-            for c in vc.pc:
+            for c in pc:
                 o.add(c)
             for n in names:
                 o.add(DIMS[n].z >= 1, DIMS[n].z <= hi)
